@@ -172,6 +172,42 @@ impl<'a> std::io::Read for Chunked<'a> {
     }
 }
 
+/// a reader that fails at its `fail_at`-th read call (persistently), handing out `chunk` bytes per read before
+pub struct Failing<'a> { pub data: &'a [u8], pub pos: usize, pub chunk: usize, pub calls: usize, pub fail_at: usize }
+impl<'a> std::io::Read for Failing<'a> {
+    fn read(&mut self, buf: &mut [u8]) -> std::io::Result<usize> {
+        let c = self.calls;
+        self.calls += 1;
+        if c >= self.fail_at {
+            return Err(std::io::Error::new(std::io::ErrorKind::Other, "injected read failure"));
+        }
+        let n = core::cmp::min(core::cmp::min(self.chunk, buf.len()), self.data.len() - self.pos);
+        buf[..n].copy_from_slice(&self.data[self.pos..self.pos + n]);
+        self.pos += n;
+        Ok(n)
+    }
+}
+
+/// C16: if the reader fails at read j, the error is returned, completion is NOT signalled, and what was
+/// delivered before is a prefix of the uninterrupted run's results
+pub fn read_error_surfaces(input: &[u8], k: u8, invert: bool, after: usize, before: usize, chunk: usize, fail_at: usize) -> bool {
+    let mk = || SearcherBuilder::new().line_number(true).invert_match(invert)
+        .after_context(after).before_context(before).build();
+    let mut full = Rec::new(input, MAXEV);
+    if mk().search_slice(ByteMatcher(k), input, &mut full).is_err() { return false; }
+    let mut b = Rec::new(input, MAXEV);
+    let mut rd = Failing { data: input, pos: 0, chunk, calls: 0, fail_at };
+    let r = mk().search_reader(ByteMatcher(k), &mut rd, &mut b);
+    let m = core::cmp::min(b.n, MAXEV);
+    if rd.calls > fail_at {
+        // the failing read was reached: the error is returned, completion is not signalled, prefix delivered
+        r.is_err() && b.finished == 0 && b.n <= full.n && b.evs[..m] == full.evs[..m]
+    } else {
+        // EOF was seen before the failing read: an ordinary complete run
+        r.is_ok() && b.finished == 1 && b.n == full.n && b.evs[..core::cmp::min(b.n + 1, MAXEV)] == full.evs[..core::cmp::min(full.n + 1, MAXEV)]
+    }
+}
+
 /// C02: the incremental reader strategy (any read fragmentation) delivers exactly what the slice strategy delivers
 pub fn reader_agrees(input: &[u8], k: u8, invert: bool, after: usize, before: usize, chunk: usize) -> bool {
     let mk = || SearcherBuilder::new().line_number(true).invert_match(invert)
@@ -243,6 +279,12 @@ pub fn replay_main() -> i32 {
         println!("replay: slice search of {:?} (invert={}, after={}, before={}) vs the grep reference model: {}", bytes, inv, after, before, if ok { "equal" } else { "DIFFERENT" });
         return if ok { 0 } else { 1 };
     }
+    if let (Some(chunk), Some(fail_at)) = (std::env::var("VERIF_REPLAY_CHUNK").ok().and_then(|v| v.parse::<usize>().ok()),
+                                            std::env::var("VERIF_REPLAY_FAIL_AT").ok().and_then(|v| v.parse::<usize>().ok())) {
+        let ok = read_error_surfaces(&bytes, b'x', inv, after, before, chunk, fail_at);
+        println!("replay: reader failing at read {} (chunk {}) on {:?}: {}", fail_at, chunk, bytes, if ok { "error surfaces, nothing delivered afterwards" } else { "VIOLATION (error swallowed, completion signalled, or results not a prefix)" });
+        return if ok { 0 } else { 1 };
+    }
     if let Some(chunk) = std::env::var("VERIF_REPLAY_CHUNK").ok().and_then(|v| v.parse::<usize>().ok()) {
         let ok = reader_agrees(&bytes, b'x', inv, after, before, chunk);
         println!("replay: reader (chunk {}) vs slice on {:?} (invert={}, after={}, before={}): {}", chunk, bytes, inv, after, before, if ok { "agree" } else { "DISAGREE" });
@@ -284,6 +326,14 @@ pub fn exhaustive_small() -> bool {
                     return false;
                 }
                 for chunk in 1..3usize {
+                    for fail_at in 0..4usize {
+                        if !read_error_surfaces(&t[..n], b'x', inv, after, before, chunk, fail_at) {
+                            println!("FAILING CASE read-error input={:?} invert={} after={} before={} chunk={} fail_at={}", &t[..n], inv, after, before, chunk, fail_at);
+                            println!("VERIF_REPLAY_HEX={} VERIF_REPLAY_INVERT={} VERIF_REPLAY_AFTER={} VERIF_REPLAY_BEFORE={} VERIF_REPLAY_CHUNK={} VERIF_REPLAY_FAIL_AT={}",
+                                t[..n].iter().map(|b| format!("{:02x}", b)).collect::<String>(), inv as u8, after, before, chunk, fail_at);
+                            return false;
+                        }
+                    }
                     if !reader_agrees(&t[..n], b'x', inv, after, before, chunk) {
                         println!("FAILING CASE reader-vs-slice input={:?} invert={} after={} before={} chunk={}", &t[..n], inv, after, before, chunk);
                         println!("VERIF_REPLAY_HEX={} VERIF_REPLAY_INVERT={} VERIF_REPLAY_AFTER={} VERIF_REPLAY_BEFORE={} VERIF_REPLAY_CHUNK={}",
